@@ -18,7 +18,31 @@ func (ex *Exec) unop(in *ssa.UnOp, x Value) Value {
 		if p == nil {
 			ex.throw("invalid memory address or nil pointer dereference")
 		}
-		return copyVal(*p)
+		v := copyVal(*p)
+		// unsafe string<->[]byte reinterpretation (util.BytesToString, partitions.HKey): same bytes
+		switch vv := v.(type) {
+		case *StrV:
+			if isByteSliceType(in.Type()) {
+				r := ex.mkByteSlice(vv.b)
+				r.num = vv.num
+				return r
+			}
+		case *SliceV:
+			if b, ok := in.Type().Underlying().(*types.Basic); ok && b.Info()&types.IsString != 0 {
+				if vv.isNil() {
+					return ex.emptyStr
+				}
+				return &StrV{b: ex.bytesOf(vv), num: vv.num}
+			}
+		case StructV:
+			// StringToBytes: *(*[]byte)(unsafe.Pointer(&struct{string; Cap int}{s, len(s)}))
+			if isByteSliceType(in.Type()) && len(vv) == 2 {
+				if sv, ok := vv[0].(*StrV); ok {
+					return ex.mkByteSlice(sv.b)
+				}
+			}
+		}
+		return v
 	case token.ARROW:
 		c, _ := x.(*ChanV)
 		return ex.chanRecv(c, in.CommaOk)
